@@ -413,7 +413,30 @@ def r08_13(ctx):
            '(for ever, with jobs still queued)')
 
 
+
+def r08_14(ctx):
+    ctx.rule('R08.14', 'the finalizer stops what the pool has: every helper thread handed to _terminate_pool (the argument '
+                       'tuple is built once, in __init__) is bound in __init__ only -- a thread created later is one '
+                       'terminate() never stops or joins', floor=3)
+    m = ctx.model
+    init = m.func('pool:Pool.__init__')
+    fin = [c for (n, c) in q.calls(init, lambda t: t.endswith('Finalize'))]
+    q.need(fin, 'Pool.__init__ creates no finalizer')
+    args = [k.value for k in fin[0].keywords if k.arg == 'args']
+    q.need(args and isinstance(args[0], ast.Tuple), 'Pool.__init__: finalizer arguments not found')
+    attrs = [ast.unparse(e) for e in args[0].elts if isinstance(e, ast.Attribute) and ast.unparse(e).startswith('self._')
+             and ('handler' in ast.unparse(e))]
+    ci = m.cls('pool:Pool')
+    for a in attrs:
+        writers = sorted({fi.qual.split(':')[1] for qn, fi in m.funcs.items()
+                          if fi.cls is not None and fi.cls.qual == ci.qual and q.assigns(fi, a)})
+        ok = writers == ['Pool.__init__']
+        ctx.ob('R08.14', 'finalizer-argument:%s-bound-in-__init__-only' % a.split('.')[1], ok, init, fin[0],
+               '%s is assigned in %s' % (a, writers))
+
+
 def run(ctx):
+    r08_14(ctx)
     # a worker interrupted inside a task has sent no result for it: the counter its exit wait compares with the parent's
     # credit counts results sent, not jobs taken (borrowed from C03) -- otherwise the signalled worker sits out 30 s
     from .c03 import r03_4 as _r03_4
@@ -458,6 +481,7 @@ def run(ctx):
 _P ='billiard/pool.py'
 _C = 'billiard/common.py'
 MUTANTS = [
+    ('scanner-created-on-demand', _P, "        if self.threads and self._timeout_handler is not None:\n            with self._timeout_handler_mutex:\n", "        if self.threads and self._timeout_handler is None and self._timeout_handler_mutex is not None:\n            self._timeout_handler = self.TimeoutHandler(self._pool, self._cache, self.soft_timeout, self.timeout)\n        if self.threads and self._timeout_handler is not None:\n            with self._timeout_handler_mutex:\n", 'R08.14'),
     ('result-handler-joined-before-workers-signalled', _P, "        # Terminate workers which haven't already finished\n        if pool and hasattr(pool[0], 'terminate'):\n            debug('terminating workers')\n            for p in pool:\n                if p._is_alive():\n                    p.terminate()\n\n        debug('joining task handler')\n        cls._stop_task_handler(task_handler)\n\n        debug('joining result handler')\n        result_handler.stop()\n",
      "        debug('joining task handler')\n        cls._stop_task_handler(task_handler)\n\n        debug('joining result handler')\n        result_handler.stop()\n\n        # Terminate workers which haven't already finished\n        if pool and hasattr(pool[0], 'terminate'):\n            debug('terminating workers')\n            for p in pool:\n                if p._is_alive():\n                    p.terminate()\n", 'R08.13'),
     ('terminate-sends-a-literal-SIGTERM', 'billiard/popen_fork.py', "                os.kill(self.pid, TERM_SIGNAL)\n", "                os.kill(self.pid, signal.SIGTERM)\n", 'R08.12'),
